@@ -369,6 +369,22 @@ theorem EntsRel.pids_dropNil {mk : Nat} {ts : Val} {lo : Key} {es es1 : List (Ke
       simp [RV.Tree.dropNil, List.filter, childWord_null]
     rw [hd]; simp only [pidsEnts, pids, ih, List.nil_append]
 
+theorem EntsRel.count_dropNil {mk : Nat} {ts : Val} {lo : Key} {es es1 : List (Key × Node)}
+    (h : EntsRel mk ts lo es es1) : countLeafKeysEnts (RV.Tree.dropNil es1) = countLeafKeysEnts es1 := by
+  induction h with
+  | nil => rfl
+  | @keep lo ki c c' rest rest' hok hcomp hpos hpid hr ih =>
+    have hd : RV.Tree.dropNil ((ki, c') :: rest') = (ki, c') :: RV.Tree.dropNil rest' := by
+      simp [RV.Tree.dropNil, List.filter, childWord_pos hpos]
+    rw [hd]; simp only [countLeafKeysEnts, ih]
+  | @drop lo ki c rest rest' hne hcomp hr ih =>
+    have hd : RV.Tree.dropNil ((ki, Node.null) :: rest') = RV.Tree.dropNil rest' := by
+      simp [RV.Tree.dropNil, List.filter, childWord_null]
+    rw [hd]; simp only [countLeafKeysEnts, countLeafKeys, ih, Nat.zero_add]
+
+theorem Alloc.leafKeys_mk (a : Nat) (b : List Nat) (c d : Int) (e f : Nat) (g : Option String) :
+    (Alloc.mk a b c d e f g).leafKeys = c := rfl
+
 /-! ## `Tree.compact` by mutual induction -/
 
 theorem w_sub_one {n : Nat} (h1 : 1 ≤ n) (h2 : n < 2 ^ 64) : w n - 1#64 = w (n - 1) := by
@@ -417,9 +433,11 @@ theorem compactNode_spec {mk : Nat} (hmk : mk < 2 ^ 31) (ts : Val) : ∀ (n : No
     (compactNode ts n a).1.isLeafC = n.isLeafC ∧ (∀ p ∈ pids (compactNode ts n a).1, p ∈ pids n) ∧
     (compactNode ts n a).2.2 ≤ (compactNode ts n a).1.len ∧
     ((compactNode ts n a).2.2 = 0 → toList (compactNode ts n a).1 = [(hi, 0#64)] ∧ 0#64 < ts ∧
-      pids (compactNode ts n a).1 = [(compactNode ts n a).1.pid]) ∧
+      pids (compactNode ts n a).1 = [(compactNode ts n a).1.pid] ∧
+      countLeafKeys (compactNode ts n a).1 = (compactNode ts n a).1.numKeys) ∧
     Cons a (compactNode ts n a).2.1 (pids n) (pids (compactNode ts n a).1) ∧
-    (compactNode ts n a).2.1.nextPage = a.nextPage
+    (compactNode ts n a).2.1.nextPage = a.nextPage ∧
+    (compactNode ts n a).2.1.leafKeys = a.leafKeys + (countLeafKeys (compactNode ts n a).1 : Int)
   | .null, _, _, _, _, h, _, _, _ => absurd h id
   | .leaf p es, b, lo, hi, a, h, hb, hp, ha => by
     obtain ⟨init, x, he⟩ := exists_init_last h.2.1.1
@@ -437,7 +455,8 @@ theorem compactNode_spec {mk : Nat} (hmk : mk < 2 ^ 31) (ts : Val) : ∀ (n : No
     rw [hspec]
     simp only
     refine ⟨ha, ⟨hcomp.sorted hs, ⟨by simp, by rw [lastKeyD_append]; rfl⟩, by simp at hlen ⊢; omega⟩, hcomp, rfl, rfl,
-      fun p hp => hp, ?_, ?_, Cons.same rfl rfl _, by first | rfl | trivial⟩
+      fun p hp => hp, ?_, ?_, by simp only [pids]; exact ⟨Nat.le_refl _, fun x => by simp, rfl⟩, by first | rfl | trivial,
+      by simp only [countLeafKeys]⟩
     · simp only [Node.len]
       split <;> simp
     · intro h0
@@ -445,7 +464,7 @@ theorem compactNode_spec {mk : Nat} (hmk : mk < 2 ^ 31) (ts : Val) : ∀ (n : No
       · rename_i hc
         obtain ⟨c1, c2⟩ := hc
         rw [toList, c1]
-        refine ⟨by simp [c2], ?_, rfl⟩
+        refine ⟨by simp [c2], ?_, rfl, by rw [countLeafKeys]⟩
         have := BitVec.ult_iff_lt.mp c2
         bv_omega
       · omega
@@ -453,8 +472,9 @@ theorem compactNode_spec {mk : Nat} (hmk : mk < 2 ^ 31) (ts : Val) : ∀ (n : No
     have hlen : es.length ≤ b := h.2.2
     have hnk : (Node.inner p es).numKeys = es.length := Node.numKeys_eq _ (by simp [Node.len]; omega)
     have hpe : ∀ q ∈ pidsEnts es, PosPid q := fun q hq => hp q (by simp [pids, hq])
-    obtain ⟨r1, r2, r3, r4⟩ := compactEnts_spec hmk ts es lo 0 es.length a h.1 hpe ha (by omega) (by omega)
+    obtain ⟨r1, r2, r3, r4, r5⟩ := compactEnts_spec hmk ts es lo 0 es.length a h.1 hpe ha (by omega) (by omega)
     have hpd := r2.pids_dropNil
+    have hcd := r2.count_dropNil
     have hs := okEnts_sorted h.1
     have hne : es ≠ [] := h.2.1.1
     have hic := inner_compact r2 hs hne (by omega)
@@ -464,10 +484,10 @@ theorem compactNode_spec {mk : Nat} (hmk : mk < 2 ^ 31) (ts : Val) : ∀ (n : No
     simp only [hnk]
     generalize compactEnts ts es 0 es.length a = res at *
     obtain ⟨es1, a1⟩ := res
-    simp only at r1 r2 r3 r4 hpd hic d1 d2 d3 d4 d6 d7 ⊢
+    simp only at r1 r2 r3 r4 r5 hpd hcd hic d1 d2 d3 d4 d6 d7 ⊢
     rw [hic]
     simp only
-    refine ⟨r1, ⟨d1, ⟨d6, ?_⟩, by omega⟩, d2, rfl, rfl, ?_, Nat.le_refl _, ?_, ?_, r4⟩
+    refine ⟨r1, ⟨d1, ⟨d6, ?_⟩, by omega⟩, d2, rfl, rfl, ?_, Nat.le_refl _, ?_, ?_, r4, ?_⟩
     · rw [lastKeyD_of_ne_nil d6 0#64 lo, d7, lastKeyD_of_ne_nil hne lo 0#64]; exact h.2.1.2
     · intro q hq
       simp only [pids, List.mem_cons] at hq ⊢
@@ -477,64 +497,82 @@ theorem compactNode_spec {mk : Nat} (hmk : mk < 2 ^ 31) (ts : Val) : ∀ (n : No
     · intro h0
       exfalso
       exact d6 (List.eq_nil_of_length_eq_zero h0)
-    · refine ⟨r3.1, fun x => ?_⟩
+    · refine ⟨r3.1, fun x => ?_, r3.3⟩
       have := r3.2 x
       simp only [pids, hpd, List.count_cons] at this ⊢
       omega
+    · rw [countLeafKeys, hcd]; exact r5
 theorem compactEnts_spec {mk : Nat} (hmk : mk < 2 ^ 31) (ts : Val) : ∀ (es : List (Key × Node)) (lo : Key) (i N : Nat)
     (a : Alloc), okEnts mk es lo → (∀ p ∈ pidsEnts es, PosPid p) → a.fault = none → i + es.length = N → N ≤ mk →
     (compactEnts ts es i N a).2.fault = none ∧ EntsRel mk ts lo es (compactEnts ts es i N a).1 ∧
     Cons a (compactEnts ts es i N a).2 (pidsEnts es) (pidsEnts (compactEnts ts es i N a).1) ∧
-    (compactEnts ts es i N a).2.nextPage = a.nextPage
+    (compactEnts ts es i N a).2.nextPage = a.nextPage ∧
+    (compactEnts ts es i N a).2.leafKeys = a.leafKeys + (countLeafKeysEnts (compactEnts ts es i N a).1 : Int)
   | [], _, _, _, a, _, _, ha, _, _ => by
-    rw [compactEnts]; exact ⟨ha, EntsRel.nil, Cons.same rfl rfl _, rfl⟩
+    rw [compactEnts]; exact ⟨ha, EntsRel.nil, Cons.same rfl rfl rfl _, rfl, by simp [countLeafKeysEnts]⟩
   | (ki, c) :: rest, lo, i, N, a, h, hp, ha, hiN, hN => by
     have hloki := okNode_lo_lt_hi h.1
     have hassert : compactKeyAssert ki = true := by
       unfold compactKeyAssert; rw [BitVec.ult_iff_lt]; bv_omega
     have hpc : ∀ q ∈ pids c, PosPid q := fun q hq => hp q (by simp [pidsEnts, hq])
     have hpr : ∀ q ∈ pidsEnts rest, PosPid q := fun q hq => hp q (by simp [pidsEnts, hq])
-    obtain ⟨n1, n2, n3, n4, n5, n6, n7, n8, n9, n10⟩ := compactNode_spec hmk ts c (mk - 1) lo ki a h.1 (by omega) hpc ha
+    obtain ⟨n1, n2, n3, n4, n5, n6, n7, n8, n9, n10, n11⟩ := compactNode_spec hmk ts c (mk - 1) lo ki a h.1 (by omega) hpc ha
     have hcne : c ≠ .null := okNode_ne_null h.1
     have hlen' := okNode_len n2
     have hrem : (compactNode ts c a).2.2 < 2 ^ 63 := by omega
     have hdrop := compactDropChild_eq (rem := (compactNode ts c a).2.2) (i := i) (N := N) hrem (by omega)
       (by simp at hiN; omega)
     rw [compactEnts]
-    simp only [hassert, Bool.not_true, Bool.false_eq_true, if_false, hdrop]
-    by_cases hd : (compactNode ts c a).2.2 = 0 ∧ i + 1 < N
+    simp only [hassert, Bool.not_true, Bool.false_eq_true, if_false]
+    generalize hcn : compactNode ts c a = res at *
+    obtain ⟨c', a1, rem⟩ := res
+    simp only at n1 n2 n3 n4 n5 n6 n7 n8 n9 n10 n11 hlen' hrem hdrop ⊢
+    simp only [hdrop]
+    by_cases hd : rem = 0 ∧ i + 1 < N
     · simp only [hd, and_self, decide_true, if_true]
       have hrne : rest ≠ [] := by
         intro e; subst e; simp at hiN; omega
-      obtain ⟨t1, t2, t3⟩ := n8 hd.1
+      obtain ⟨t1, t2, t3, t4⟩ := n8 hd.1
       have hnil : Compacted ts (toList c) [] := by
         apply n3.to_nil _ t2
         rw [t1]; intro e he; simp at he; rw [he]
-      have := compactEnts_spec hmk ts rest ki (i + 1) N
-        { (compactNode ts c a).2.1 with
-            leafKeys := (compactNode ts c a).2.1.leafKeys - ((compactNode ts c a).1.numKeys : Int),
-            free := (compactNode ts c a).1.pid :: (compactNode ts c a).2.1.free,
-            pagesFree := (compactNode ts c a).2.1.pagesFree + 1 }
-        h.2 hpr n1 (by simp at hiN ⊢; omega) hN
-      refine ⟨this.1, EntsRel.drop hrne hnil this.2.1, ?_, by rw [this.2.2.2]; exact n10⟩
-      have hfree : Cons a { (compactNode ts c a).2.1 with
-            leafKeys := (compactNode ts c a).2.1.leafKeys - ((compactNode ts c a).1.numKeys : Int),
-            free := (compactNode ts c a).1.pid :: (compactNode ts c a).2.1.free,
-            pagesFree := (compactNode ts c a).2.1.pagesFree + 1 } (pids c) [] := by
-        refine ⟨n9.1, fun x => ?_⟩
-        have := n9.2 x
-        rw [t3] at this
-        simp only [List.count_cons, List.count_nil] at this ⊢
-        omega
-      have := hfree.seq this.2.2.1
-      simpa [pidsEnts, pids] using this
-    · simp only [hd, decide_false, Bool.false_eq_true, if_false]
-      have := compactEnts_spec hmk ts rest ki (i + 1) N (compactNode ts c a).2.1 h.2 hpr n1
+      generalize ha2 : Alloc.mk a1.nextPage (c'.pid :: a1.free) (a1.leafKeys - (c'.numKeys : Int))
+          (a1.pagesFree + 1) a1.dataLen a1.curSz a1.fault = a2
+      have hfa2 : a2.fault = none := by rw [← ha2]; exact n1
+      have hfree : Cons a a2 (pids c) [] := by
+        rw [← ha2]
+        refine ⟨n9.1, fun x => ?_, ?_⟩
+        · have := n9.2 x
+          rw [t3] at this
+          simp only [List.count_cons, List.count_nil] at this ⊢
+          omega
+        · have := n9.3
+          simp only [List.length_cons] at this ⊢
+          omega
+      have hlk2 : a2.leafKeys = a.leafKeys := by rw [← ha2]; simp only; rw [n11, t4]; omega
+      have hnp2 : a2.nextPage = a.nextPage := by rw [← ha2]; exact n10
+      obtain ⟨u1, u2, u3, u4, u5⟩ := compactEnts_spec hmk ts rest ki (i + 1) N a2 h.2 hpr hfa2
         (by simp at hiN ⊢; omega) hN
-      refine ⟨this.1, EntsRel.keep n2 n3 ?_ n6 this.2.1, ?_, by rw [this.2.2.2]; exact n10⟩
+      generalize compactEnts ts rest (i + 1) N a2 = res2 at *
+      obtain ⟨rest', a3⟩ := res2
+      simp only at u1 u2 u3 u4 u5 ⊢
+      refine ⟨u1, EntsRel.drop hrne hnil u2, ?_, by rw [u4, hnp2], ?_⟩
+      · have := hfree.seq u3
+        simpa [pidsEnts, pids] using this
+      · simp only [countLeafKeysEnts, countLeafKeys]
+        rw [u5, hlk2]; omega
+    · simp only [hd, decide_false, Bool.false_eq_true, if_false]
+      obtain ⟨u1, u2, u3, u4, u5⟩ := compactEnts_spec hmk ts rest ki (i + 1) N a1 h.2 hpr n1
+        (by simp at hiN ⊢; omega) hN
+      generalize compactEnts ts rest (i + 1) N a1 = res2 at *
+      obtain ⟨rest', a3⟩ := res2
+      simp only at u1 u2 u3 u4 u5 ⊢
+      refine ⟨u1, EntsRel.keep n2 n3 ?_ n6 u2, ?_, by rw [u4, n10], ?_⟩
       · rw [n4]; exact hpc _ (pid_mem_pids hcne)
-      · have := n9.seq this.2.2.1
+      · have := n9.seq u3
         simpa [pidsEnts] using this
+      · simp only [countLeafKeysEnts]
+        rw [u5, n11]; omega
 end
 
 /-! ## `Tree.DeleteBelow` -/
@@ -545,10 +583,12 @@ theorem deleteBelow_spec {cfg : Cfg} (hc : CfgOk cfg) (t : Tree) (hinv : TreeInv
       (∀ k, abs (deleteBelow t ts) k = if abs t k < ts then 0#64 else abs t k) ∧
       (∀ p ∈ pids (deleteBelow t ts).root, p ∈ pids t.root) ∧
       Cons t.a (deleteBelow t ts).a (pids t.root) (pids (deleteBelow t ts).root) ∧
-      (deleteBelow t ts).a.nextPage = t.a.nextPage := by
+      (deleteBelow t ts).a.nextPage = t.a.nextPage ∧
+      (deleteBelow t ts).a.leafKeys = countLeafKeys (deleteBelow t ts).root ∧
+      (deleteBelow t ts).root.pid = t.root.pid := by
   have hmk := hc.lt
   have hge := hc.ge4
-  obtain ⟨n1, n2, n3, n4, n5, n6, n7, n8, n9, n10⟩ :=
+  obtain ⟨n1, n2, n3, n4, n5, n6, n7, n8, n9, n10, n11⟩ :=
     compactNode_spec hmk ts t.root (cfg.maxKeys - 1) 0#64 absoluteMax { t.a with leafKeys := 0 } hinv.ok (by omega) hp
       hinv.nofault
   have hlen := okNode_len n2
@@ -574,7 +614,7 @@ theorem deleteBelow_spec {cfg : Cfg} (hc : CfgOk cfg) (t : Tree) (hinv : TreeInv
   have hs := (okNode_toList cfg.maxKeys t.root _ _ _ hinv.ok).1
   unfold deleteBelow
   simp only [hassert, if_true]
-  refine ⟨⟨by rw [n5]; exact hinv.root_inner, n2, n1⟩, ?_, n6, ⟨n9.1, n9.2⟩, n10⟩
+  refine ⟨⟨by rw [n5]; exact hinv.root_inner, n2, n1⟩, ?_, n6, ⟨n9.1, n9.2, n9.3⟩, n10, by rw [n11]; simp, n4⟩
   intro k
   exact n3.lookup hs k
 
